@@ -36,7 +36,7 @@ class Worker:
             stderr=subprocess.DEVNULL, env=env, cwd=paths.VERIF, text=True, bufsize=1)
         self.ready = False
 
-    def wait_ready(self, timeout=180):
+    def wait_ready(self, timeout=900):
         if self.ready:
             return True
         line = self._readline(timeout)
